@@ -32,6 +32,8 @@ pub enum FrameLen {
     Small,
     /// after a status request: a ping whose length prefix declares 2^21 + 9 (its low 21 bits say 9)
     AliasedPing,
+    /// a five-byte length prefix whose last byte still has the continuation bit set, followed by a stream of bytes
+    OverlongPrefixFlood(u8),
 }
 
 #[derive(Clone, Debug, Serialize, Deserialize, PartialEq)]
@@ -63,6 +65,9 @@ pub struct Case {
     pub scenarios: Vec<Scn>,
     /// part (b): connection timeout of the bare Listener in ms, and whether the client echoes keep-alives
     pub listener_timeout_ms: u16,
+    /// part (c): a second instance with a huge status response and a client that does not read it
+    #[serde(default)]
+    pub unread_response: bool,
 }
 
 pub struct C14;
@@ -70,8 +75,12 @@ pub struct C14;
 static STARTED: AtomicU64 = AtomicU64::new(0);
 
 fn start_passage(case: &Case) -> u16 {
+    start_passage_with(case, None)
+}
+
+fn start_passage_with(case: &Case, favicon: Option<String>) -> u16 {
     let port = net::free_port();
-    let cfg = json!({
+    let mut cfg = json!({
         "address": format!("127.0.0.1:{port}"),
         "timeout": case.timeout_s,
         "max_packet_length": case.max_len,
@@ -84,6 +93,9 @@ fn start_passage(case: &Case) -> u16 {
             "authentication": {"fixed": {"profile": {"id": "11111111-2222-3333-4444-555555555555", "name": "FixedUser", "properties": []}}},
         }
     });
+    if let Some(f) = favicon {
+        cfg["adapters"]["status"] = json!({"fixed": {"name": "big", "favicon": f}});
+    }
     let config: passage::config::Config = serde_json::from_value(cfg).expect("configuration value");
     STARTED.fetch_add(1, Ordering::Relaxed);
     std::thread::Builder::new()
@@ -146,6 +158,34 @@ fn run_scenario(case: &Case, port: u16, scn: &Scn) -> Result<(), (String, String
             }
             Ok(())
         }
+        Scn::Frame(FrameLen::OverlongPrefixFlood(k)) => {
+            // no length is legal here (negative, zero or > 2^21): the frame must be refused at once, not when the
+            // connection deadline strikes
+            if case.timeout_s < 2 {
+                return Ok(());
+            }
+            let prefix: [u8; 5] = [[0xff, 0xff, 0xff, 0xff, 0xff], [0xff, 0xff, 0xff, 0xff, 0x87], [0x80, 0x80, 0x80, 0x80, 0x80], [0x81, 0x80, 0x80, 0x80, 0xf8]][usize::from(*k) % 4];
+            let mut c = NetClient::connect(port).map_err(|e| ("inconclusive".to_string(), e.to_string()))?;
+            let t0 = Instant::now();
+            let _ = c.write_raw(&prefix);
+            let _ = c.stream.set_write_timeout(Some(Duration::from_millis(200)));
+            let junk = vec![0xffu8; 64 * 1024];
+            let mut closed_after = None;
+            while t0.elapsed() < Duration::from_millis(900) {
+                if c.write_raw(&junk).is_err() {
+                    closed_after = Some(t0.elapsed());
+                    break;
+                }
+                std::thread::sleep(Duration::from_millis(5));
+            }
+            if closed_after.is_none() {
+                closed_after = c.wait_closed(Duration::from_millis(100)).map(|_| t0.elapsed());
+            }
+            match closed_after {
+                Some(d) if d <= Duration::from_millis(900) => Ok(()),
+                _ => Err(("illegal-length-prefix-not-refused".into(), format!("configured max_packet_length {m}: after the length prefix {:02x?} the server kept receiving for more than 0.9 s (timeout {} s)", prefix, case.timeout_s))),
+            }
+        }
         Scn::StallThenCookie => {
             if m < 600 || case.timeout_s < 3 {
                 return Ok(());
@@ -195,7 +235,7 @@ fn run_scenario(case: &Case, port: u16, scn: &Scn) -> Result<(), (String, String
                 FrameLen::Default => 10_000,
                 FrameLen::DefaultPlusOne => 10_001,
                 FrameLen::Small => 40,
-                FrameLen::AliasedPing => unreachable!(),
+                FrameLen::AliasedPing | FrameLen::OverlongPrefixFlood(_) => unreachable!(),
             };
             let Some(frame) = handshake_of_len(l) else { return Ok(()) };
             let mut c = NetClient::connect(port).map_err(|e| ("inconclusive".to_string(), e.to_string()))?;
@@ -316,6 +356,39 @@ fn listener_part(case: &Case) -> Result<(), (String, String)> {
     r
 }
 
+/// (c) a status response far larger than the socket buffers, requested by a client that does not read: the
+/// deadline still ends the connection (the client, reading afterwards, must hit the end of stream before
+/// the end of the response)
+fn unread_response_part(case: &Case) -> Result<(), (String, String)> {
+    const SIZE: usize = 24 << 20;
+    let port = start_passage_with(case, Some("x".repeat(SIZE)));
+    let timeout = Duration::from_secs(u64::from(case.timeout_s));
+    let mut c = NetClient::connect(port).map_err(|e| ("inconclusive".to_string(), e.to_string()))?;
+    let _ = c.send(&Pkt::Handshake { protocol: 770, host: "big.example.org".into(), port: 25565, next: 1 });
+    let _ = c.send(&Pkt::StatusRequest);
+    // do not read until the deadline has passed
+    std::thread::sleep(timeout + SLACK);
+    let t0 = Instant::now();
+    let mut total = 0usize;
+    let mut buf = vec![0u8; 1 << 20];
+    let _ = c.stream.set_read_timeout(Some(Duration::from_secs(3)));
+    use std::io::Read;
+    loop {
+        match c.stream.read(&mut buf) {
+            Ok(0) => break,
+            Ok(n) => total += n,
+            Err(e) if matches!(e.kind(), std::io::ErrorKind::WouldBlock | std::io::ErrorKind::TimedOut) => {
+                return Err(("served-past-the-deadline".into(), format!("timeout {timeout:?}: {:?} after the deadline the connection of a client that did not read its {SIZE}-byte status response was still open ({total} bytes received)", t0.elapsed())));
+            }
+            Err(_) => break,
+        }
+        if total >= SIZE {
+            return Err(("served-past-the-deadline".into(), format!("timeout {timeout:?}: a client that started reading {:?} after connecting still received the complete {SIZE}-byte status response", timeout + SLACK)));
+        }
+    }
+    Ok(())
+}
+
 fn decide(case: &Case, info: &mut CaseInfo) -> Verdict {
     let port = start_passage(case);
     let results: Vec<(usize, Result<(), (String, String)>)> = std::thread::scope(|s| {
@@ -365,6 +438,19 @@ fn decide(case: &Case, info: &mut CaseInfo) -> Verdict {
             }
         }
     }
+    if case.unread_response {
+        info.class("unread_huge_response_at_the_deadline");
+        if let Err((sig, msg)) = unread_response_part(case) {
+            if sig != "inconclusive" {
+                if let Err((sig2, msg2)) = unread_response_part(case) {
+                    if sig2 == sig {
+                        return Verdict::Fail { sig, msg: format!("{msg2} (confirmed by a second run)") };
+                    }
+                }
+            }
+            inconclusive = Some(msg);
+        }
+    }
     if let Err((sig, msg)) = listener_part(case) {
         if sig != "inconclusive" {
             if let Err((sig2, msg2)) = listener_part(case) {
@@ -402,6 +488,7 @@ impl Check for C14 {
             Just(FrameLen::DefaultPlusOne),
             Just(FrameLen::Small),
             Just(FrameLen::AliasedPing),
+            any::<u8>().prop_map(FrameLen::OverlongPrefixFlood),
         ];
         let beh = prop_oneof![Just(Behaviour::Silent), Just(Behaviour::Dribble), any::<u8>().prop_map(Behaviour::StopAfter), Just(Behaviour::Garbage)];
         let scn = prop_oneof![
@@ -417,8 +504,9 @@ impl Check for C14 {
             "[a-zA-Z0-9]{4,24}",
             proptest::collection::vec(scn, 6..20),
             300u16..900,
+            prop::bool::weighted(0.3),
         )
-            .prop_map(|(max_len, expiry, timeout_s, secret, scenarios, listener_timeout_ms)| Case { max_len, expiry, timeout_s, secret, scenarios, listener_timeout_ms })
+            .prop_map(|(max_len, expiry, timeout_s, secret, scenarios, listener_timeout_ms, unread_response)| Case { max_len, expiry, timeout_s, secret, scenarios, listener_timeout_ms, unread_response })
             .boxed()
     }
     fn cases(&self, tier: Tier) -> u64 {
